@@ -343,7 +343,12 @@ def gen_c15(rnd, tier):
             return [{"op": "auth", "c": name, "kind": rnd.choice(["garbage", "forged", "expired"]),
                      "claims": {"read": [], "write": [], "delete": []}, "wait": True}]
         cl = {"read": rnd.choice(GRANTS), "write": rnd.choice(GRANTS), "delete": rnd.choice(GRANTS)}
+        if rnd.random() < 0.3:                          # one privilege not granted at all, the others broadly
+            cl = {"read": [["#"]], "write": [["#"]], "delete": [["#"]]}
+            cl[rnd.choice(["read", "write", "delete"])] = []
         items = [{"op": "auth", "c": name, "kind": "ok", "claims": cl, "wait": True}]
+        if rnd.random() < 0.5:
+            items[0]["omit_empty"] = True               # privileges without patterns are left out of the token
         if rnd.random() < 0.1:
             items.append({"op": "auth", "c": name, "kind": "ok", "claims": cl, "wait": True})    # a second one
         return items
